@@ -37,13 +37,13 @@ def configs(tier):
         return (
             F([1, 2, 3])
             + F([4], algs=("overlap",), bounds=((0, 100),), shards=12)
-            + F([2], algs=("overlap", "simple"), bounds=((0, 100),), hists=("reconf", "engine2", "stale", "subset"))
-            + F([3], algs=("overlap", "simple"), bounds=((0, 100),), hists=("reconf", "engine2", "stale", "subset"), shards=4)
+            + F([2], algs=("overlap", "simple"), bounds=((0, 100),), hists=("reconf", "engine2", "stale", "subset", "interleaved"))
+            + F([3], algs=("overlap", "simple"), bounds=((0, 100),), hists=("reconf", "engine2", "stale", "subset", "interleaved"), shards=4)
         )
     c = F([1, 2, 3], dens=(0.85, 0.5, 1), stubws=(0, 1, 5), bounds=((0, 100), (None, 100), (0, None), (-30, 45), (0, 60)))
     c += F([4], algs=("overlap", "simple"), dens=(0.85, 0.5), bounds=((0, 100), (0, 60)), shards=12)
-    c += F([2], bounds=((0, 100), (0, 60)), hists=("twice", "reconf", "renodes", "engine2", "subset", "stale"))
-    c += F([3], algs=("overlap", "simple"), bounds=((0, 100),), hists=("twice", "reconf", "renodes", "engine2", "subset", "stale"), shards=4)
+    c += F([2], bounds=((0, 100), (0, 60)), hists=("twice", "reconf", "renodes", "engine2", "subset", "stale", "interleaved"))
+    c += F([3], algs=("overlap", "simple"), bounds=((0, 100),), hists=("twice", "reconf", "renodes", "engine2", "subset", "stale", "interleaved"), shards=4)
     c += F([5], algs=("overlap",), bounds=((0, 100),), shards=16)
     return c
 
